@@ -142,8 +142,8 @@ var payloads = []struct {
 }{
 	{"nil", true}, {"true", true}, {"false", true}, {"%d", true}, {"\"s%d\"", true}, {"\"\"", true},
 	{"{id = %d}", true}, {"{id = %d, 1, \"x\", true}", true}, {"CH[1]", true},
-	{"{id = %d, function() end}", true},                        // nested function: accepted (shallow filter)
-	{"{id = %d, setmetatable({id = 1}, {})}", true},            // nested table with metatable: accepted
+	{"{id = %d, function() end}", true},             // nested function: accepted (shallow filter)
+	{"{id = %d, setmetatable({id = 1}, {})}", true}, // nested table with metatable: accepted
 	{"{id = %d, {id = 2, {id = 3}}}", true},
 	{"function() end", false}, {"print", false}, {"newud()", false}, {"coroutine.create(function() end)", false},
 	{"setmetatable({id = %d}, {})", false}, {"setmetatable({id = %d, 5}, {__index = function() end})", false},
@@ -299,6 +299,8 @@ var snippets = []string{
 	`do emit("num", math.floor(%[1]d / 3), math.max(%[1]d, %[2]d), tostring(%[1]d / 4), %[1]d %% 7, 2 ^ 10, tostring(1e15), tostring(0.1))
    emit("str", ("x"):byte(), string.char(72, 105), ("Hello"):upper(), ("Hello"):lower(), ("hello"):sub(2, -2), ("abc"):reverse()) end`,
 	`do local t = {} for i = 1, 10 do table.insert(t, i) end table.remove(t, 1) table.insert(t, 1, %[1]d) emit("tins", #t, t[1], t[#t], table.concat(t, "-")) end`,
+	`do local o = {v = %[1]d} function o.get(self) return self.v end function o:inc(d) self.v = self.v + d return self end
+   emit("meth", o:inc(%[2]d):get(), o.get(o)) end`,
 	`do local ok = pcall(string.rep) local a, b = tostring(nil), tostring(true) emit("misc", tostring(ok), a, b, type(print), tonumber("%[1]d"), tonumber("0x10")) end`,
 }
 
@@ -364,13 +366,18 @@ end
 			{Role: "producer", Script: "op_send(1, \"1\") op_send(1, \"2\") op_send(1, \"3\") op_send(2, true)\n"},
 			{Role: "janitor", Script: "wait_producers() op_close(1) op_close(2)\n"},
 		}}},
+		// known finding C13-1: a table (and whatever it contains) is passed by reference, so two
+		// states that both keep using it race on interpreter-owned memory
+		{Kind: "share", KF: []string{"C13-1"}, Share: &ShareSpec{
+			Sender:   "local t = {n = 0}\nch:send(t)\nt.x = 1\n",
+			Receiver: "local ok, t = ch:receive()\nlocal y = t.x\n"}},
 		// one shared prototype, several states, churn
 		{Kind: "iso", Iso: &IsoSpec{Src: fmt.Sprintf(strings.Join(snippets, "\n"), 40, 7, 12), Other: otherSrc, N: 8, Churn: 3, Procs: 16, TimeoutMs: 60000}},
 	}
 }
 
 func genJobs(r *lib.Rand, tier string) []Job {
-	nm, ns, ni, states, churn := 150, 60, 50, 8, 3
+	nm, ns, ni, states, churn := 220, 80, 50, 8, 3
 	if tier == "thorough" {
 		nm, ns, ni, states, churn = 4000, 1000, 500, 32, 6
 	}
